@@ -79,6 +79,36 @@ fn values_case(rng: &mut Rng, idx: u64, out: &mut Out) {
         }
     }
     cfg.skips = skips.clone();
+    // every fourth case: a loop connection next to the skip connections, preferably ending right
+    // in front of a skip target (the target then combines the LOOPED output with its source);
+    // no connection starts inside the looped range or ends behind its first layer
+    if idx % 4 == 1 {
+        if let Ok(shapes) = cfg.shapes() {
+            let n = cfg.layers.len();
+            let mut ranges: Vec<(usize, usize)> = Vec::new();
+            for lo in 0..n {
+                for hi in lo..n.min(lo + 3) {
+                    let plain = (lo..=hi).all(|k| !matches!(cfg.layers[k], LCfg::Feedback { .. }));
+                    let free = skips.iter().all(|(a, b)| !(lo..=hi).contains(a) && !(lo + 1..=hi).contains(b));
+                    if plain && free && shapes[lo].0 == shapes[hi].1 {
+                        ranges.push((lo, hi));
+                    }
+                }
+            }
+            let behind: Vec<(usize, usize)> = ranges.iter().cloned().filter(|(_, hi)| skips.iter().any(|(_, b)| *b == hi + 1)).collect();
+            let pick = if !behind.is_empty() && rng.chance(0.7) { Some(*rng.pick(&behind)) } else if !ranges.is_empty() { Some(*rng.pick(&ranges)) } else { None };
+            if let Some((lo, hi)) = pick {
+                cfg.loops = vec![(hi, lo, rng.range(1, 2), rng.bool())];
+                out.count("networks_with_a_loop_next_to_the_skip_connections", 1);
+                if skips.iter().any(|(_, b)| *b == hi + 1) {
+                    out.count("skip_targets_directly_behind_a_loop", 1);
+                }
+                if skips.iter().any(|(_, b)| *b == lo) {
+                    out.count("skip_targets_at_the_first_looped_layer", 1);
+                }
+            }
+        }
+    }
     out.key = cfg.describe();
     for (a, b) in skips.iter() {
         out.cover("accumulation_x_representation", format!("{}/{}", acc.name(), rep_kind(&cfg, *a, *b)));
@@ -401,7 +431,7 @@ impl Monitor for C16 {
         vec![("values", tier.pick(90_000, 1_800_000)), ("bookkeeping", tier.pick(45_000, 900_000)), ("gradients", tier.pick(22_500, 450_000))]
     }
     fn rule(&self) -> &'static str {
-        "networks of depth 2..7 in which every layer input has the same element count (flat dense chains, spatial chains of 'same' convolutions / deconvolutions / 1x1 pools / deconvolution+pool pairs, mixed flat<->spatial chains on r*r elements, spatial chains whose shapes differ at equal element count via stride-2 convolutions / deconvolutions; every seventh network has some layers wrapped into feedback blocks so that blocks occur as sources and targets). values: 1..2 connections drawn from ALL index pairs a <= b with equal counts (sources and targets disjoint), accumulation = case index mod 5; predict vs reference network where layer b processes combine(ordinary input, input fed to a) (reshaped row-major), within the running f32 bound. bookkeeping: scripts of 2..4 connect() calls biased towards same-target, same-source and chained pairs; after every call the prediction must equal the reference containing exactly the accepted connections (either reading of 'input fed to a' for chains), a call with a new source and a new target must be accepted, a discarded earlier connection is identified by re-evaluating the reference without it. gradients: additive accumulation (every fifth case adds its last connection only after the network object has run a forward and a backward pass), hooked backward vs dual-number derivative of the MSE of the reference WITH the skips. The loop accumulation (which concerns nothing in these networks) is set to each of the five values in turn. Distinct = distinct (network, connections | script) descriptors."
+        "networks of depth 2..7 in which every layer input has the same element count (flat dense chains, spatial chains of 'same' convolutions / deconvolutions / 1x1 pools / deconvolution+pool pairs, mixed flat<->spatial chains on r*r elements, spatial chains whose shapes differ at equal element count via stride-2 convolutions / deconvolutions; every seventh network has some layers wrapped into feedback blocks so that blocks occur as sources and targets). values: 1..2 connections drawn from ALL index pairs a <= b with equal counts (sources and targets disjoint), accumulation = case index mod 5; predict vs reference network where layer b processes combine(ordinary input, input fed to a) (reshaped row-major), within the running f32 bound; every fourth case adds a loop connection (1..2 iterations, any loop accumulation, with and without input skips) over a range no connection starts in, preferably ending right in front of a skip target, so that the target combines the looped output with its source. bookkeeping: scripts of 2..4 connect() calls biased towards same-target, same-source and chained pairs; after every call the prediction must equal the reference containing exactly the accepted connections (either reading of 'input fed to a' for chains), a call with a new source and a new target must be accepted, a discarded earlier connection is identified by re-evaluating the reference without it. gradients: additive accumulation (every fifth case adds its last connection only after the network object has run a forward and a backward pass), hooked backward vs dual-number derivative of the MSE of the reference WITH the skips. The loop accumulation (which concerns nothing in these networks) is set to each of the five values in turn. Distinct = distinct (network, connections | script) descriptors."
     }
     fn assumptions(&self) -> Vec<&'static str> {
         vec!["chained connections (a target that is also a source): both the raw and the accumulated reading of 'the input that was fed to layer a' are accepted", "multiplicative/subtractive/mean/overwrite accumulations are only checked on values (the property claims gradients for additive accumulation only)"]
